@@ -335,7 +335,7 @@ func MediaType(t *rapid.T) string {
 		// upper case - all of it one type "/" subtype with parameters
 		s = rapid.SampledFrom([]string{"text/plain ; charset=utf-8", "text/plain;charset=utf-8", "text/plain \t; charset=utf-8", "Text/Plain; Charset=UTF-8",
 			"application/cose; cose-type=\"cose-sign1\"", "application/x.y+cbor;a=1;b=2", "application/cbor; q=\"a b\" ; v=1", "a/b;", "a/b ;x",
-			"multipart/signed; protocol=\"application/pkcs7-signature\"", "multipart/related; type=application/xml; start=\"<a/b>\"", "application/cose; note=/"}).Draw(t, "mtodd")
+			"multipart/signed; protocol=\"application/pkcs7-signature\"", "multipart/related; type=application/xml; start=\"<a/b>\"", "application/cose; note=/", "text/plain; title=\"\u00dcbersicht\"", "text/plain; t=\u4e2d\u6587; u=\U0001f600", "application/x; a=\u00ff"}).Draw(t, "mtodd")
 	}
 	return s
 }
